@@ -7,6 +7,7 @@ import warnings
 import numpy as np
 import torch
 from ..lib.core import f2b, b2f
+from ..lib.watchdog import time_limit, CallTimeout
 
 logging.disable(logging.WARNING)
 warnings.filterwarnings('ignore')
@@ -136,7 +137,12 @@ def check_generated_geometry(ctx, which='all'):
             err = rng.choice([0.01, 1e-3, 1e-5])
             if cosi < 1e-3 or abs(sin2t - 1) < 1e-3:
                 continue          # grazing / critical angle: ill-conditioned, covered by C12's boundary classes
-            out = LR.refract(t64(ray), t64(nrm), n1, n2, error=err).numpy().astype(np.float64).reshape(-1)
+            try:
+                with time_limit(20.0):          # termination is C12's subject: a call that does not return is not judged here and must not hang this check
+                    out = LR.refract(t64(ray), t64(nrm), n1, n2, error=err).numpy().astype(np.float64).reshape(-1)
+            except CallTimeout:
+                ctx.count('generated/refract did not return within 20 s (termination is decided by C12)')
+                continue
             line = 'gg_refract_run %d %d %s %s %d' % (f2b(n1), f2b(n2), fl(ray), fl(nrm), f2b(err))
             rec = dict(rec, n1=n1, n2=n2, error=err)
             if sin2t > 1:       # total internal reflection: flagged with NaN by the code, status 1 by the generated pieces
